@@ -797,6 +797,23 @@ pub fn c14_access() {
 pub fn c02_access() {
     c14_access()
 }
+/// Programs whose evaluation used to reach todo!(): macros over a non-collection, message literals.
+pub fn c02_unsupported_nodes() {
+    let code: u8 = any();
+    crate::sym::assume(code <= 5);
+    let src = ["1.map(x, x)", "null.all(x, true)", "true.exists(x, x)", "'a'.filter(x, true)", "T{}", "a.b.C{x: 1}"][code as usize];
+    let got = Program::compile(src).expect("compiles").execute(&Context::default());
+    check!(got.is_err(), "an unsupported construct is an execution error, never a panic");
+}
+pub fn c11_unsupported_nodes() {
+    c02_unsupported_nodes()
+}
+pub fn c10_unsupported_nodes() {
+    c02_unsupported_nodes()
+}
+pub fn c19_unsupported_nodes() {
+    c02_unsupported_nodes()
+}
 pub fn c14_literal() {
     c07_literal()
 }
@@ -853,6 +870,10 @@ crate::replay_only! {
     #[kani::unwind(2)] c19_references: "off", "Program::references vs execution with an undeclared variable / function in one of ten syntactic positions", "ten positions x {variable, function}";
     #[kani::unwind(2)] c14_access: "off", "`a[b]` and `a in b` through Program::compile + execute on variables of every kind", "8 x 8 operand kinds incl. a non-ASCII string, a two-element list, a map with int/uint/bool/string keys";
     #[kani::unwind(2)] c02_access: "off", "same body (C02)", "same";
+    #[kani::unwind(2)] c02_unsupported_nodes: "off", "macros over int/null/bool/string ranges and message literals through Program::compile + execute", "six programs";
+    #[kani::unwind(2)] c11_unsupported_nodes: "off", "same body", "same";
+    #[kani::unwind(2)] c10_unsupported_nodes: "off", "same body", "same";
+    #[kani::unwind(2)] c19_unsupported_nodes: "off", "same body", "same";
     #[kani::unwind(2)] c14_literal: "off", "same body (C14)", "same";
     #[kani::unwind(2)] c07_extractor_eval: "off", "same body (C07)", "same";
     #[kani::unwind(2)] c08_unary_minus: "off", "Program::compile + Value::resolve NEGATE arm", "i: all i64";
